@@ -172,6 +172,7 @@ fn run_c11(seed: u64, tier: Tier) -> i32 {
     deadline: None,
     keep_fps: false,
     sample_below: 2,
+    max_deaths: 0,
   };
   let xagg = run_plan(&xplan);
   // phase 2: seeded search over items x fault plans
@@ -189,6 +190,7 @@ fn run_c11(seed: u64, tier: Tier) -> i32 {
     deadline: if tier == Tier::Thorough { thorough_deadline(900) } else { None },
     keep_fps: false,
     sample_below: 4,
+    max_deaths: 0,
   };
   let mut agg = run_plan(&plan);
   let exhaustive_complete = xagg.evaluations == xplan.total && xagg.deaths.is_empty();
@@ -301,6 +303,7 @@ fn run_c05(seed: u64, tier: Tier) -> i32 {
     deadline: None,
     keep_fps: false,
     sample_below: 3,
+    max_deaths: 0,
   };
   let gagg = run_plan(&gplan);
   eprintln!("phase growth: {:.1}s", t0.elapsed().as_secs_f64());
@@ -319,6 +322,7 @@ fn run_c05(seed: u64, tier: Tier) -> i32 {
     deadline: if tier == Tier::Thorough { thorough_deadline(1200) } else { None },
     keep_fps: false,
     sample_below: 6,
+    max_deaths: if tier == Tier::Quick { 120 } else { 1500 },
   };
   let mut agg = run_plan(&plan);
   eprintln!("phase search: {:.1}s ({} deaths)", t0.elapsed().as_secs_f64(), agg.deaths.len());
@@ -330,7 +334,21 @@ fn run_c05(seed: u64, tier: Tier) -> i32 {
   let mut not_triaged = 0u64;
   for (check, a) in [("c05g", &gagg), ("c05", &agg)] {
     // deaths are attributed in parallel: each needs one child execution with the operation trace on
-    let deaths: Vec<&Death> = a.deaths.iter().take(max_deaths).collect();
+    // every timed-out run costs a watchdog period to attribute: at most 12 of them are attributed
+    let mut n_timeouts = 0;
+    let deaths: Vec<&Death> = a
+      .deaths
+      .iter()
+      .filter(|d| {
+        if d.how == "timeout" {
+          n_timeouts += 1;
+          n_timeouts <= 12
+        } else {
+          true
+        }
+      })
+      .take(max_deaths)
+      .collect();
     not_triaged += (a.deaths.len() - deaths.len()) as u64;
     let results: std::sync::Mutex<Vec<(u64, Result<Violation, String>)>> = std::sync::Mutex::new(Vec::new());
     let next = std::sync::atomic::AtomicUsize::new(0);
@@ -395,6 +413,9 @@ fn run_c05(seed: u64, tier: Tier) -> i32 {
     groups.entry(key).or_default().push(i);
   }
   let mut reps: Vec<(usize, u64)> = Vec::new(); // (index into raw, group size)
+  for (k, idxs) in groups.iter() {
+    eprintln!("group {:5} x {}", idxs.len(), k.chars().take(150).collect::<String>());
+  }
   for (_, idxs) in groups.iter_mut() {
     idxs.sort_by_key(|i| (c05t::world_size(&raw[*i].1), raw[*i].0));
     let n = idxs.len() as u64;
@@ -484,7 +505,7 @@ fn run_c05(seed: u64, tier: Tier) -> i32 {
     level: "exploration",
     rule: "one evaluation = one world (schema text + JSON + CBOR + CSV documents; built from fixtures, from a random document with a schema inferred from it, from the grammar, or from a nesting/size family within the 64 KiB / depth-64 bounds; 0-3 faults on the stored bytes) executed through parse, checked parse, root name, format (+ reparse and reformat), JSON / CBOR / CSV validation (both header flags) and decode_cbor in a disposable child with an allocator budget, an 8 MiB stack and a 20 s watchdog; plus one evaluation per (family, operation) of the allocator-call growth series. non-trivial = the schema parsed and at least one validator got past document parsing; distinct = distinct FNV digests of (world bytes, per-operation outcomes)".into(),
     assumptions: vec![
-      "allocator budget: a single request above max(4 MiB, 1024 x input size) or more than 1 GiB live is memory the input does not justify".into(),
+      "allocator budget: a single request above max(32 MiB, 1024 x input size) or more than max(256 MiB, 2048 x input size) live is memory the input does not justify".into(),
       "time bound T(n) = 5 s + 1 us x n^3; a hang is reported only after minimisation and confirmation alone against 3 x T(n) (<= 10 min), otherwise counted under the probe slow_unconfirmed".into(),
       "growth check: allocator calls are a proxy for work; >= 12x per +4 nesting levels (or >= 64x per doubling of size) twice in a row is super-polynomial".into(),
       "gdb only labels stack overflows; the verdict is the death of the child, confirmed by re-executing the world alone".into(),
@@ -589,6 +610,7 @@ fn run_c14(seed: u64, tier: Tier) -> i32 {
     deadline: if tier == Tier::Thorough { thorough_deadline(900) } else { None },
     keep_fps: false,
     sample_below: 4,
+    max_deaths: 0,
   };
   let mut agg = run_plan(&plan);
   eprintln!("phase search: {:.1}s ({} deaths, {} violations)", t0.elapsed().as_secs_f64(), agg.deaths.len(), agg.violations.len());
@@ -673,6 +695,7 @@ fn run_c18(seed: u64, tier: Tier) -> i32 {
     deadline: if tier == Tier::Thorough { thorough_deadline(900) } else { None },
     keep_fps: false,
     sample_below: 5,
+    max_deaths: 0,
   };
   let mut agg = run_plan(&plan);
   eprintln!("phase search: {:.1}s ({} deaths, {} violations)", t0.elapsed().as_secs_f64(), agg.deaths.len(), agg.violations.len());
@@ -743,6 +766,7 @@ fn run_c17(seed: u64, tier: Tier) -> i32 {
     deadline: if tier == Tier::Thorough { thorough_deadline(600) } else { None },
     keep_fps: false,
     sample_below: 5,
+    max_deaths: 0,
   };
   let mut agg = run_plan(&plan);
   eprintln!("phase search: {:.1}s ({} deaths, {} violations)", t0.elapsed().as_secs_f64(), agg.deaths.len(), agg.violations.len());
@@ -867,7 +891,7 @@ fn selftest_determinism(args: &[String]) -> i32 {
     let n = runs_from_env(400);
     let mut fps = Vec::new();
     for (workers, batch) in [(1usize, 50u64), (16, 7), (5, 400)] {
-      let plan = Plan { check: name, seed, tier: Tier::Quick, total: n, batch, workers, deadline: None, keep_fps: true, sample_below: 0 };
+      let plan = Plan { check: name, seed, tier: Tier::Quick, total: n, batch, workers, deadline: None, keep_fps: true, sample_below: 0, max_deaths: 0 };
       let a = run_plan(&plan);
       fps.push(a.fps);
     }
